@@ -145,9 +145,9 @@ def collect_trajectories(
     )(
         reshape_batch(observations),
         reshape_batch(actions),
-        reshape_batch(rewards).squeeze(),
-        reshape_batch(terminated_arr).squeeze(),
-        reshape_batch(next_values).squeeze(),
+        reshape_batch(rewards).reshape(-1),
+        reshape_batch(terminated_arr).reshape(-1),
+        reshape_batch(next_values).reshape(-1),
         obs,
         global_step,
     )
